@@ -115,6 +115,9 @@ func TestC08Inflight(t *testing.T) {
 				if ex.Header != nil && ex.BodySerial() == oldBody {
 					r.Violation("replaced-representation-served", sig, fmt.Sprintf("request %d after the late background reply got the representation that a reload had replaced while the validation was in flight (body %s, X-Gen %s, ETag %s); %s", k, oldBody, ex.Header.Get("X-Gen"), ex.Header.Get("Etag"), ex.Summary()), exSummaries(w))
 				}
+				if ex.Header != nil && ex.Header.Get("X-Gen") == "1" && ex.BodySerial() != "" && ex.BodySerial() != oldBody {
+					r.Violation("older-full-reply-over-newer", sig, fmt.Sprintf("the late full reply of the background validation (generation 1, requested before the reload) replaced the representation the reload had stored (generation 2); %s", ex.Summary()), exSummaries(w))
+				}
 				if mb := w.Call(ex.BodySerial()); ex.Header != nil && mb != nil && mb.Reply != nil && mb.Reply.Header.Get("X-Gen") != ex.Header.Get("X-Gen") {
 					// (a 304 is only ever about the generation it was asked about)
 					r.Violation("header-not-updated", sig+",header-block-of-another-generation", fmt.Sprintf("a body of generation %s is served under a header block of generation %s; %s", mb.Reply.Header.Get("X-Gen"), ex.Header.Get("X-Gen"), ex.Summary()), exSummaries(w))
